@@ -157,45 +157,65 @@ Definition sched_trace (sched : list (nat * oracle)) (ext : nat -> option (list 
    environment step "a stale resume arrives now" (Mutex.OSpur, CondVar.CSpur, Latch.OSpur,
    Event.ESpur, Once.OOSpur, Semaphore.StaleResume, Join.AResume), which is a_resume again.
    Registration is the model's own queue; here it is the ghost bit r, and o is the ghost "owed". *)
-Inductive ag_op := OpReg | OpSuspend | OpResume | OpStale | OpPhaseEnd.
+Inductive ag_op := OpReg | OpSuspend | OpResume | OpStale | OpStaleTok | OpPhaseEnd.
+(* what an operation does to the agent_state: literally the function of Base/Agent.v (OpStaleTok is
+   the literal `{| tok := true; blocked := false |}` of Mutex.OSpur and CondVar.CSpur) *)
+Definition ag_fun (op : ag_op) (a : agent_state) : agent_state :=
+  match op with
+  | OpReg => a
+  | OpSuspend => fst (a_suspend a)
+  | OpResume | OpStale => a_resume a
+  | OpStaleTok => {| tok := true; blocked := false |}
+  | OpPhaseEnd => a_phase_end a
+  end.
 Record ag_ghost := { ag : agent_state; greg : bool; gowed : bool }.
 Definition ag_abs (s : ag_ghost) : wa_task :=
   {| wmode := if blocked (ag s) then MBlk else MRun; wreg := greg s; wowed := gowed s |}.
-(* who may do what: the thread itself acts only while it is not blocked *)
+(* the operations are total: the only side condition is that a thread registers itself while it
+   is not blocked.  a_suspend / a_phase_end applied to a BLOCKED agent (no model does that, but
+   nothing in Base/Agent.v forbids it) change nothing the machine sees *)
 Definition ag_pre (op : ag_op) (s : ag_ghost) : Prop :=
-  match op with
-  | OpReg | OpSuspend | OpPhaseEnd => blocked (ag s) = false
-  | OpResume | OpStale => True
-  end.
+  match op with OpReg => blocked (ag s) = false | _ => True end.
+(* a blocked agent holds no token *)
+Definition ag_wf (s : ag_ghost) : Prop := tok (ag s) = true -> blocked (ag s) = false.
+(* the ghosts follow the weak-agent steps the operation stands for *)
 Definition ag_step (op : ag_op) (s : ag_ghost) : ag_ghost :=
+  let a' := ag_fun op (ag s) in
   match op with
-  | OpReg => {| ag := ag s; greg := true; gowed := gowed s |}
+  | OpReg => {| ag := a'; greg := true; gowed := gowed s |}
   | OpSuspend =>
-      match snd (a_suspend (ag s)) with
-      | Returned => {| ag := fst (a_suspend (ag s)); greg := false; gowed := false |}
-      | Blocked => {| ag := fst (a_suspend (ag s)); greg := greg s; gowed := gowed s |}
-      end
+      if blocked (ag s) then {| ag := a'; greg := greg s; gowed := gowed s |}
+      else match snd (a_suspend (ag s)) with
+           | Returned => {| ag := a'; greg := false; gowed := false |}
+           | Blocked => {| ag := a'; greg := greg s; gowed := gowed s |}
+           end
   | OpResume =>
-      if blocked (ag s) then {| ag := a_resume (ag s); greg := false; gowed := false |}
-      else {| ag := a_resume (ag s); greg := false; gowed := gowed s || greg s |}
-  | OpStale =>
-      if blocked (ag s) then {| ag := a_resume (ag s); greg := false; gowed := false |}
-      else {| ag := a_resume (ag s); greg := greg s; gowed := gowed s |}
-  | OpPhaseEnd => {| ag := a_phase_end (ag s); greg := false; gowed := false |}
+      if blocked (ag s) then {| ag := a'; greg := false; gowed := false |}
+      else {| ag := a'; greg := false; gowed := gowed s || greg s |}
+  | OpStale | OpStaleTok =>
+      if blocked (ag s) then {| ag := a'; greg := false; gowed := false |}
+      else {| ag := a'; greg := greg s; gowed := gowed s |}
+  | OpPhaseEnd =>
+      if blocked (ag s) then {| ag := a'; greg := greg s; gowed := gowed s |}
+      else {| ag := a'; greg := false; gowed := false |}
   end.
 (* the weak-agent steps an operation stands for *)
 Definition ag_kinds (op : ag_op) (s : ag_ghost) : list wa_kind :=
   match op with
   | OpReg => [KReg]
-  | OpSuspend => match snd (a_suspend (ag s)) with Returned => [KSusp; KWake] | Blocked => [KSusp] end
+  | OpSuspend =>
+      if blocked (ag s) then []
+      else match snd (a_suspend (ag s)) with Returned => [KSusp; KWake] | Blocked => [KSusp] end
   | OpResume => if blocked (ag s) then [KRes; KWake] else [KRes]
-  | OpStale => if blocked (ag s) then [KWake] else []
-  | OpPhaseEnd => [KYield]
+  | OpStale | OpStaleTok => if blocked (ag s) then [KWake] else []
+  | OpPhaseEnd => if blocked (ag s) then [] else [KYield]
   end.
 (* what Base/Agent.v guarantees on top of the weak machine: an owed wake-up is held as the token
    of a running agent until the agent consumes it, so the interface is never blocked-and-owed *)
 Definition ag_w2 (s : ag_ghost) : Prop :=
   gowed s = true -> blocked (ag s) = false /\ tok (ag s) = true.
+(* one step of a primitive model changes an agent by one operation of the interface, or not at all *)
+Definition ag_iface_upd (a a' : agent_state) : Prop := exists op, a' = ag_fun op a.
 
 (* any sequence of operations on one agent (each allowed when it is issued), with the weak-agent
    events it stands for *)
